@@ -251,6 +251,82 @@ func (l *limitedWriter) Write(p []byte) (int, error) {
 
 var reFatal = regexp.MustCompile(`(?m)^(fatal error: .*|panic: .*|SIGSEGV.*|unexpected fault address.*|runtime: .*|WARNING: DATA RACE)$`)
 
+var reRaceHdr = regexp.MustCompile(`^(Write|Read|Previous write|Previous read|Atomic write|Atomic read|Previous atomic write|Previous atomic read) at 0x[0-9a-f]+ by (goroutine [0-9]+|main goroutine)`)
+
+// raceSig extracts "func|func" (first sonic frame of each of the two access
+// stacks, sorted) from the first race report in stderr. ok=false if neither
+// stack has a frame in the code under test (a harness race: trouble, not a violation).
+func raceSig(stderr string) (sig string, ok bool) {
+	i := strings.Index(stderr, "WARNING: DATA RACE")
+	if i < 0 {
+		return "", false
+	}
+	lines := strings.Split(stderr[i:], "\n")
+	var frames []string
+	inStack := false
+	found := false
+	for k := 1; k < len(lines) && len(frames) < 2; k++ {
+		ln := lines[k]
+		if reRaceHdr.MatchString(ln) {
+			if inStack && !found {
+				frames = append(frames, "?")
+			}
+			inStack, found = true, false
+			continue
+		}
+		if strings.HasPrefix(ln, "Goroutine ") || strings.HasPrefix(ln, "====") {
+			break
+		}
+		if inStack && !found && strings.HasPrefix(ln, "  ") && !strings.HasPrefix(ln, "      ") {
+			fn := strings.TrimSpace(ln)
+			if p := strings.Index(fn, "("); p > 0 && strings.HasSuffix(fn, ")") {
+				fn = fn[:strings.LastIndex(fn, "(")]
+			}
+			// the file line follows
+			file := ""
+			if k+1 < len(lines) {
+				file = strings.TrimSpace(lines[k+1])
+			}
+			if strings.HasPrefix(fn, "runtime.") || strings.HasPrefix(fn, "sync/atomic.") || strings.HasPrefix(fn, "sync.") || strings.HasPrefix(fn, "internal/") {
+				continue // innermost runtime frames (memmove, slicecopy, atomics ...)
+			}
+			if strings.HasPrefix(fn, "github.com/bytedance/sonic/") && !strings.Contains(fn, "/internal/simrt") && !strings.Contains(fn, "/xverif") && !strings.Contains(file, "/verif/harness/") {
+				frames = append(frames, strings.TrimPrefix(fn, "github.com/bytedance/sonic/"))
+			} else {
+				// the access itself is in the simulator or the harness (or foreign code): not sonic's
+				frames = append(frames, "?")
+			}
+			found = true
+		}
+	}
+	if inStack && !found && len(frames) < 2 {
+		frames = append(frames, "?")
+	}
+	real := false
+	for _, f := range frames {
+		if f != "?" {
+			real = true
+		}
+	}
+	if !real {
+		return "", false
+	}
+	sort.Strings(frames)
+	return strings.Join(frames, "|"), true
+}
+
+// deathSig classifies a worker that died inside a run.
+func deathSig(prop, stderr string) (sig, detail string, harnessTrouble bool) {
+	if strings.Contains(stderr, "WARNING: DATA RACE") {
+		if s, ok := raceSig(stderr); ok {
+			return prop + ":race:" + s, "data race reported by the race detector on a schedule chosen by the simulator", false
+		}
+		return "", "race report without a frame in the code under test", true
+	}
+	cls := crashClass(stderr)
+	return prop + ":crash:" + cls, "worker process died: " + cls, false
+}
+
 func crashClass(stderr string) string {
 	m := reFatal.FindString(stderr)
 	if m == "" {
@@ -325,6 +401,8 @@ func runBatch(b *builder, prop string, bt *batch, tier string, seed uint64, nrun
 				gotSum := false
 				for _, l := range po.lines {
 					switch l.K {
+					case "stop":
+						next = l.I + 1
 					case "at":
 						lastAt = l.I
 					case "viol":
@@ -365,9 +443,13 @@ func runBatch(b *builder, prop string, bt *batch, tier string, seed uint64, nrun
 							next = j.to
 						}
 					} else if lastAt >= 0 && bt.Progress {
-						cls := crashClass(po.stderr)
-						res.Viols = append(res.Viols, violation{Batch: bt, From: j.from, Crash: true, Stderr: tail(po.stderr, 6000),
-							Line: outLine{K: "viol", I: lastAt, Sig: prop + ":crash:" + cls, Detail: "worker process died: " + cls}})
+						sig, det, harness := deathSig(prop, po.stderr)
+						if harness {
+							res.Trouble = append(res.Trouble, fmt.Sprintf("batch %s run %d: %s\n%s", bt.Name, lastAt, det, tail(po.stderr, 3000)))
+						} else {
+							res.Viols = append(res.Viols, violation{Batch: bt, From: j.from, Crash: true, Stderr: tail(po.stderr, 6000),
+								Line: outLine{K: "viol", I: lastAt, Sig: sig, Detail: det}})
+						}
 						next = lastAt + 1
 						res.Runs += lastAt - from + 1
 					} else {
@@ -482,8 +564,11 @@ func (b *builder) replayOnce(rf *ReplayFile, timeout time.Duration) (sig string,
 		return "", "", nil, "watchdog in prefix"
 	}
 	if at {
-		cls := crashClass(po.stderr)
-		return rf.Property + ":crash:" + cls, "worker process died: " + cls + "\n" + tail(po.stderr, 3000), nil, ""
+		sig, det, harness := deathSig(rf.Property, po.stderr)
+		if harness {
+			return "", "", nil, det + "\n" + tail(po.stderr, 2000)
+		}
+		return sig, det + "\n" + tail(po.stderr, 3000), nil, ""
 	}
 	return "", "", nil, "replay worker died before the run: " + tail(po.stderr, 2000)
 }
